@@ -1,3 +1,4 @@
+import DcmVerif.Props.Source
 import DcmVerif.Model.Valid
 /-! C10: the validity check accepts exactly the contents that meet the format rules.
 The full-strength iff is false of the code (finding F6: the value count is not checked for a varying
